@@ -591,16 +591,16 @@ def run(ctx):
     #    contiguity flags, so the deep runs use one layout of each contiguity class and a shallower run uses all.
     two = {"contig", "strided"}
     full = dict(BASE, MinFields=1, MaxFields=2, MaxDepth=2 if ctx.quick else 3, Layouts=two, DoExport=False, **MECH)
-    wide = dict(full, MinFields=3, MaxFields=3, MaxDepth=1 if ctx.quick else 2, Layouts=set(LAYOUTS))
+    wide = dict(full, MinFields=3, MaxFields=3, MaxDepth=1 if ctx.quick else 2,
+                Layouts=set(LAYOUTS) if ctx.quick else {"contig", "strided", "recview", "fortran"})
     ctx.tlc("ByteOrderMC.tla", what="theorems + mechanism refines property (this machine's order, chains)",
             cfg_text=cfg(constants=dict(full, MachineLE=MACHINE_LE), invariants=THEOREMS),
             workers=16, require=ACTIONS, timeout=3000)
-    ctx.tlc("ByteOrderMC.tla", what="theorems + mechanism refines property (this machine's order, 3 fields, all layouts)",
+    ctx.tlc("ByteOrderMC.tla", what="theorems + mechanism refines property (this machine's order, 3 fields, more layouts)",
             cfg_text=cfg(constants=dict(wide, MachineLE=MACHINE_LE), invariants=THEOREMS),
             workers=16, require=ACTIONS, timeout=3000)
     ctx.tlc("ByteOrderMC.tla", what="theorems + mechanism refines property (other machine order)",
-            cfg_text=cfg(constants=dict(full, MachineLE=not MACHINE_LE, MaxDepth=2, Layouts={"strided"} if ctx.quick else {"contig", "strided"},
-                                        MaxFields=2 if ctx.quick else 3),
+            cfg_text=cfg(constants=dict(full, MachineLE=not MACHINE_LE, MaxDepth=2, Layouts={"strided"} if ctx.quick else set(LAYOUTS)),
                          invariants=THEOREMS),
             workers=16, require=ACTIONS, timeout=3000)
     # 1b. non-vacuity of MechRefines: each deviating mechanism variant violates it
